@@ -143,6 +143,12 @@ fn main() {
             p04::debug(&case);
             0
         }
+        Some("debug-c08") => {
+            let rf: ReplayFile = serde_json::from_str(&std::fs::read_to_string(&args[2]).unwrap()).unwrap();
+            let case: p08::Case = serde_json::from_value(rf.case).unwrap();
+            p08::debug(&case);
+            0
+        }
         Some("replay-inner") => {
             let strict = args.iter().any(|a| a == "--strict");
             replay_file(&PathBuf::from(&args[2]), strict)
